@@ -200,6 +200,8 @@ func (r *runner) orec(rec kvs.Record) *ORec {
 		e = 2
 		if rec.ExpiresAt.Equal(r.expAt) {
 			e = 1
+		} else if rec.ExpiresAt.Equal(r.expAt.Add(-2 * time.Hour)) {
+			e = 3 // the past expiration of exp("-1h")
 		}
 	}
 	return &ORec{Key: rec.Key, Val: valID(rec.Value), Ver: r.id(rec.Version), Exp: e}
@@ -492,6 +494,8 @@ func coqORec(o *ORec) string {
 		e = farExp
 	case 2:
 		e = "(Some (-1)%Z)"
+	case 3:
+		e = "(Some (-3600000000000)%Z)"
 	}
 	return fmt.Sprintf("(%s, %s, %s, %s)", hx.Str(o.Key), coqVal(o.Val), hx.Nat(o.Ver), e)
 }
@@ -1082,8 +1086,26 @@ func main() {
 			var prog []POp
 			for rd := 0; rd < rounds; rd++ {
 				key := fmt.Sprintf("k%d", rd)
-				prog = append(prog, POp{T: -1, R: rd, Op: kvx.Op{K: "C", Key: key, Val: 2, Exp: prng.Pick(r, []string{"", "", "1h"})}})
 				N := r.Range(2, 6)
+				if be == "inmem" && r.Chance(1, 4) {
+					// (in-memory backend only: the Redis client turns a past expiration into a TTL of 1 ms, the record exists
+					// for that long, and the in-process server's clock stands still)
+					// the key holds a record whose expiration has passed and that nobody has touched since: it is absent for
+					// every one of the racing calls (Delete: ErrNotExist for all of them, Create: one winner)
+					prog = append(prog, POp{T: -1, R: rd, Op: kvx.Op{K: "P", Key: key, Val: 2, Exp: "-1h"}})
+					for t := 0; t < N; t++ {
+						switch r.Intn(4) {
+						case 0:
+							prog = append(prog, POp{T: t, R: rd, Op: kvx.Op{K: "C", Key: key, Val: 2}})
+						case 1:
+							prog = append(prog, POp{T: t, R: rd, Op: kvx.Op{K: "G", Key: key}})
+						default:
+							prog = append(prog, POp{T: t, R: rd, Op: kvx.Op{K: "D", Key: key}})
+						}
+					}
+					continue
+				}
+				prog = append(prog, POp{T: -1, R: rd, Op: kvx.Op{K: "C", Key: key, Val: 2, Exp: prng.Pick(r, []string{"", "", "1h"})}})
 				for t := 0; t < N; t++ {
 					prog = append(prog, POp{T: t, R: rd, Op: kvx.Op{K: "C", Key: key, Val: prng.Pick(r, []int{0, 2}), Exp: prng.Pick(r, []string{"", "1h", "-1h", "-1h"})}})
 					if r.Chance(1, 3) {
